@@ -39,8 +39,8 @@ Definition opt_sim (a b : option (out * pending * cvars)) : Prop :=
   | _, _ => False
   end.
 
-Lemma consume_sim D pend has sel unk nested cv cv2 :
-  opt_sim (consume D pend has sel unk nested cv) (consume D pend has sel unk nested cv2).
+Lemma consume_sim D pend has sel unk nested empty cv cv2 :
+  opt_sim (consume D pend has sel unk nested empty cv) (consume D pend has sel unk nested empty cv2).
 Proof.
   unfold consume, opt_sim.
   destruct pend as [|key fl|fl]; auto.
@@ -49,15 +49,15 @@ Proof.
   - destruct (unk || _); auto. destruct (_ && f_sd fl); auto.
 Qed.
 
-Lemma consume_pnone D has sel unk nested cv : consume D PNone has sel unk nested cv = None.
+Lemma consume_pnone D has sel unk nested empty cv : consume D PNone has sel unk nested empty cv = None.
 Proof. reflexivity. Qed.
 
 Ltac consume_cases cv cv2 H :=
   match goal with
-  | |- context [consume ?D ?p ?h ?s ?u ?n cv] =>
-      pose proof (consume_sim D p h s u n cv cv2) as H;
-      destruct (consume D p h s u n cv) as [[[?o1 ?p1] ?c1]|];
-      destruct (consume D p h s u n cv2) as [[[?o2 ?p2] ?c2]|];
+  | |- context [consume ?D ?p ?h ?s ?u ?n ?e cv] =>
+      pose proof (consume_sim D p h s u n e cv cv2) as H;
+      destruct (consume D p h s u n e cv) as [[[?o1 ?p1] ?c1]|];
+      destruct (consume D p h s u n e cv2) as [[[?o2 ?p2] ?c2]|];
       simpl in H; try contradiction
   end.
 
@@ -162,7 +162,7 @@ Proof.
     destruct (str_eqb n s_print_config && pd_cfg (d_root D)); apply IH; exact F.
   - destruct (pd_cfg (d_root D)); [|apply IH; exact F].
     destruct (apply_items _ UKeep c items) as [c'|]; [|reflexivity].
-    destruct (consume _ _ _ _ _ _ _) as [[[o1 p1] c1]|]; [reflexivity|apply IH; exact F].
+    destruct (consume _ _ _ _ _ _ _ _) as [[[o1 p1] c1]|]; [reflexivity|apply IH; exact F].
   - destruct (d_subs D) as [|sp sps] eqn:Es; [apply IH; exact F|].
     destruct (alookup n (sp :: sps)); [|reflexivity].
     destruct (scan_sub _ _ _ _ _ _) as [[[res c'] unk'] pend']. reflexivity.
